@@ -1,1 +1,539 @@
-// placeholder
+//! BIP-0032 hierarchical deterministic keys, written from the BIP text on top of the sibling
+//! reference modules (`secp`, `codec`, `hashes`). Mainnet version bytes only. Test oracle.
+
+use crate::refimpl::codec::base58check_encode;
+use crate::refimpl::hashes::{hash160, hmac, HashAlg};
+use crate::refimpl::secp::{self, Point};
+use num_bigint::BigUint;
+use num_traits::Zero;
+
+const VERSION_XPRV: [u8; 4] = [0x04, 0x88, 0xAD, 0xE4];
+const VERSION_XPUB: [u8; 4] = [0x04, 0x88, 0xB2, 0x1E];
+const HARDENED: u32 = 0x8000_0000;
+
+#[derive(Debug, Clone, PartialEq, Eq)]
+pub struct XKey {
+    pub depth: u8,
+    pub parent_fp: [u8; 4],
+    pub index: u32,
+    pub chain_code: [u8; 32],
+    pub key: KeyMaterial,
+}
+
+#[derive(Debug, Clone, PartialEq, Eq)]
+pub enum KeyMaterial {
+    Private(BigUint),
+    Public(Point),
+}
+
+/// HMAC-SHA512 split into (IL, IR).
+fn hmac512_split(key: &[u8], data: &[u8]) -> ([u8; 32], [u8; 32]) {
+    let i = hmac(HashAlg::Sha512, key, data);
+    assert_eq!(i.len(), 64);
+    let mut il = [0u8; 32];
+    let mut ir = [0u8; 32];
+    il.copy_from_slice(&i[..32]);
+    ir.copy_from_slice(&i[32..]);
+    (il, ir)
+}
+
+/// The public point of either kind of key.
+fn public_point(k: &XKey) -> Point {
+    match &k.key {
+        KeyMaterial::Private(d) => secp::pubkey(d),
+        KeyMaterial::Public(q) => q.clone(),
+    }
+}
+
+/// serP(K): 33-byte compressed SEC1 encoding.
+fn ser_p(q: &Point) -> Vec<u8> {
+    secp::encode_point(q, true)
+}
+
+/// Master key generation: I = HMAC-SHA512(key = "Bitcoin seed", data = seed); IL is the key,
+/// IR the chain code. None if IL == 0 or IL >= n. Any seed length is accepted.
+pub fn master(seed: &[u8]) -> Option<XKey> {
+    let (il, ir) = hmac512_split(b"Bitcoin seed", seed);
+    let k = secp::from_be(&il);
+    if k.is_zero() || k >= secp::n() {
+        return None;
+    }
+    Some(XKey {
+        depth: 0,
+        parent_fp: [0u8; 4],
+        index: 0,
+        chain_code: ir,
+        key: KeyMaterial::Private(k),
+    })
+}
+
+/// CKDpriv for Private parents (hardened if index >= 2^31), CKDpub for Public parents (None for
+/// hardened indices). None when the child is invalid (IL >= n, child key 0 / point at infinity)
+/// and when the parent already has depth 255.
+pub fn derive(parent: &XKey, index: u32) -> Option<XKey> {
+    if parent.depth == 255 {
+        return None;
+    }
+    let hardened = index >= HARDENED;
+    let n = secp::n();
+
+    let mut data: Vec<u8> = Vec::with_capacity(37);
+    match &parent.key {
+        KeyMaterial::Private(k_par) if hardened => {
+            // 0x00 || ser256(k_par) || ser32(i)
+            data.push(0x00);
+            data.extend_from_slice(&secp::be32(k_par));
+        }
+        KeyMaterial::Private(_) => {
+            // serP(point(k_par)) || ser32(i)
+            data.extend_from_slice(&ser_p(&public_point(parent)));
+        }
+        KeyMaterial::Public(_) if hardened => return None,
+        KeyMaterial::Public(q_par) => {
+            // serP(K_par) || ser32(i)
+            data.extend_from_slice(&ser_p(q_par));
+        }
+    }
+    data.extend_from_slice(&index.to_be_bytes());
+
+    let (il, ir) = hmac512_split(&parent.chain_code, &data);
+    let il_int = secp::from_be(&il);
+    if il_int >= n {
+        return None;
+    }
+
+    let key = match &parent.key {
+        KeyMaterial::Private(k_par) => {
+            // k_i = parse256(IL) + k_par (mod n)
+            let k_i = (il_int + k_par) % &n;
+            if k_i.is_zero() {
+                return None;
+            }
+            KeyMaterial::Private(k_i)
+        }
+        KeyMaterial::Public(q_par) => {
+            // K_i = point(parse256(IL)) + K_par
+            match secp::add(&secp::pubkey(&il_int), q_par) {
+                Point::Infinity => return None,
+                q_i => KeyMaterial::Public(q_i),
+            }
+        }
+    };
+
+    Some(XKey {
+        depth: parent.depth + 1,
+        parent_fp: fingerprint(parent),
+        index,
+        chain_code: ir,
+        key,
+    })
+}
+
+/// N(): Private -> Public (d*G) with everything else unchanged; Public keys are returned as is.
+pub fn neuter(k: &XKey) -> XKey {
+    XKey {
+        depth: k.depth,
+        parent_fp: k.parent_fp,
+        index: k.index,
+        chain_code: k.chain_code,
+        key: KeyMaterial::Public(public_point(k)),
+    }
+}
+
+/// First 4 bytes of the key identifier hash160(serP(K)).
+pub fn fingerprint(k: &XKey) -> [u8; 4] {
+    let id = hash160(&ser_p(&public_point(k)));
+    [id[0], id[1], id[2], id[3]]
+}
+
+/// 78-byte serialisation, Base58Check encoded:
+/// version(4) || depth(1) || parent fingerprint(4) || child number(4, BE) || chain code(32) ||
+/// key data(33: 00 || ser256(k) for private keys, serP(K) for public keys).
+pub fn to_string(k: &XKey) -> String {
+    let mut out: Vec<u8> = Vec::with_capacity(78);
+    match &k.key {
+        KeyMaterial::Private(_) => out.extend_from_slice(&VERSION_XPRV),
+        KeyMaterial::Public(_) => out.extend_from_slice(&VERSION_XPUB),
+    }
+    out.push(k.depth);
+    out.extend_from_slice(&k.parent_fp);
+    out.extend_from_slice(&k.index.to_be_bytes());
+    out.extend_from_slice(&k.chain_code);
+    match &k.key {
+        KeyMaterial::Private(d) => {
+            out.push(0x00);
+            out.extend_from_slice(&secp::be32(d));
+        }
+        KeyMaterial::Public(q) => out.extend_from_slice(&ser_p(q)),
+    }
+    assert_eq!(out.len(), 78);
+    base58check_encode(&out)
+}
+
+/// Parses "m/0'/1/2h/3H": the first component must be `m` or `M`; the others are decimal
+/// numbers below 2^31 with an optional hardened marker (`'`, `h` or `H`); empty components
+/// (doubled or trailing slashes) are ignored. None for anything else.
+pub fn parse_path(path: &str) -> Option<Vec<u32>> {
+    let mut parts = path.split('/');
+    match parts.next() {
+        Some("m") | Some("M") => {}
+        _ => return None,
+    }
+    let mut out = Vec::new();
+    for part in parts {
+        if part.is_empty() {
+            continue;
+        }
+        let (digits, hardened) = match part.strip_suffix(|c| c == '\'' || c == 'h' || c == 'H') {
+            Some(rest) => (rest, true),
+            None => (part, false),
+        };
+        if digits.is_empty() || !digits.bytes().all(|b| b.is_ascii_digit()) {
+            return None;
+        }
+        // all-digit strings can only fail to parse by overflowing
+        let value: u64 = digits.parse().ok()?;
+        if value >= HARDENED as u64 {
+            return None;
+        }
+        let value = value as u32;
+        out.push(if hardened { value + HARDENED } else { value });
+    }
+    Some(out)
+}
+
+#[cfg(test)]
+mod tests {
+    use super::*;
+    use crate::refimpl::codec::{base58check_decode, hex_decode};
+
+    const H: u32 = HARDENED;
+
+    struct Chain {
+        path: &'static str,
+        index: Option<u32>, // step from the previous chain; None for the master
+        xpub: &'static str,
+        xprv: &'static str,
+    }
+
+    fn vector1() -> (&'static str, Vec<Chain>) {
+        (
+            "000102030405060708090a0b0c0d0e0f",
+            vec![
+                Chain {
+                    path: "m",
+                    index: None,
+                    xpub: "xpub661MyMwAqRbcFtXgS5sYJABqqG9YLmC4Q1Rdap9gSE8NqtwybGhePY2gZ29ESFjqJoCu1Rupje8YtGqsefD265TMg7usUDFdp6W1EGMcet8",
+                    xprv: "xprv9s21ZrQH143K3QTDL4LXw2F7HEK3wJUD2nW2nRk4stbPy6cq3jPPqjiChkVvvNKmPGJxWUtg6LnF5kejMRNNU3TGtRBeJgk33yuGBxrMPHi",
+                },
+                Chain {
+                    path: "m/0'",
+                    index: Some(H),
+                    xpub: "xpub68Gmy5EdvgibQVfPdqkBBCHxA5htiqg55crXYuXoQRKfDBFA1WEjWgP6LHhwBZeNK1VTsfTFUHCdrfp1bgwQ9xv5ski8PX9rL2dZXvgGDnw",
+                    xprv: "xprv9uHRZZhk6KAJC1avXpDAp4MDc3sQKNxDiPvvkX8Br5ngLNv1TxvUxt4cV1rGL5hj6KCesnDYUhd7oWgT11eZG7XnxHrnYeSvkzY7d2bhkJ7",
+                },
+                Chain {
+                    path: "m/0'/1",
+                    index: Some(1),
+                    xpub: "xpub6ASuArnXKPbfEwhqN6e3mwBcDTgzisQN1wXN9BJcM47sSikHjJf3UFHKkNAWbWMiGj7Wf5uMash7SyYq527Hqck2AxYysAA7xmALppuCkwQ",
+                    xprv: "xprv9wTYmMFdV23N2TdNG573QoEsfRrWKQgWeibmLntzniatZvR9BmLnvSxqu53Kw1UmYPxLgboyZQaXwTCg8MSY3H2EU4pWcQDnRnrVA1xe8fs",
+                },
+                Chain {
+                    path: "m/0'/1/2'",
+                    index: Some(H + 2),
+                    xpub: "xpub6D4BDPcP2GT577Vvch3R8wDkScZWzQzMMUm3PWbmWvVJrZwQY4VUNgqFJPMM3No2dFDFGTsxxpG5uJh7n7epu4trkrX7x7DogT5Uv6fcLW5",
+                    xprv: "xprv9z4pot5VBttmtdRTWfWQmoH1taj2axGVzFqSb8C9xaxKymcFzXBDptWmT7FwuEzG3ryjH4ktypQSAewRiNMjANTtpgP4mLTj34bhnZX7UiM",
+                },
+                Chain {
+                    path: "m/0'/1/2'/2",
+                    index: Some(2),
+                    xpub: "xpub6FHa3pjLCk84BayeJxFW2SP4XRrFd1JYnxeLeU8EqN3vDfZmbqBqaGJAyiLjTAwm6ZLRQUMv1ZACTj37sR62cfN7fe5JnJ7dh8zL4fiyLHV",
+                    xprv: "xprvA2JDeKCSNNZky6uBCviVfJSKyQ1mDYahRjijr5idH2WwLsEd4Hsb2Tyh8RfQMuPh7f7RtyzTtdrbdqqsunu5Mm3wDvUAKRHSC34sJ7in334",
+                },
+                Chain {
+                    path: "m/0'/1/2'/2/1000000000",
+                    index: Some(1_000_000_000),
+                    xpub: "xpub6H1LXWLaKsWFhvm6RVpEL9P4KfRZSW7abD2ttkWP3SSQvnyA8FSVqNTEcYFgJS2UaFcxupHiYkro49S8yGasTvXEYBVPamhGW6cFJodrTHy",
+                    xprv: "xprvA41z7zogVVwxVSgdKUHDy1SKmdb533PjDz7J6N6mV6uS3ze1ai8FHa8kmHScGpWmj4WggLyQjgPie1rFSruoUihUZREPSL39UNdE3BBDu76",
+                },
+            ],
+        )
+    }
+
+    fn vector2() -> (&'static str, Vec<Chain>) {
+        (
+            "fffcf9f6f3f0edeae7e4e1dedbd8d5d2cfccc9c6c3c0bdbab7b4b1aeaba8a5a29f9c999693908d8a8784817e7b7875726f6c696663605d5a5754514e4b484542",
+            vec![
+                Chain {
+                    path: "m",
+                    index: None,
+                    xpub: "xpub661MyMwAqRbcFW31YEwpkMuc5THy2PSt5bDMsktWQcFF8syAmRUapSCGu8ED9W6oDMSgv6Zz8idoc4a6mr8BDzTJY47LJhkJ8UB7WEGuduB",
+                    xprv: "xprv9s21ZrQH143K31xYSDQpPDxsXRTUcvj2iNHm5NUtrGiGG5e2DtALGdso3pGz6ssrdK4PFmM8NSpSBHNqPqm55Qn3LqFtT2emdEXVYsCzC2U",
+                },
+                Chain {
+                    path: "m/0",
+                    index: Some(0),
+                    xpub: "xpub69H7F5d8KSRgmmdJg2KhpAK8SR3DjMwAdkxj3ZuxV27CprR9LgpeyGmXUbC6wb7ERfvrnKZjXoUmmDznezpbZb7ap6r1D3tgFxHmwMkQTPH",
+                    xprv: "xprv9vHkqa6EV4sPZHYqZznhT2NPtPCjKuDKGY38FBWLvgaDx45zo9WQRUT3dKYnjwih2yJD9mkrocEZXo1ex8G81dwSM1fwqWpWkeS3v86pgKt",
+                },
+                Chain {
+                    path: "m/0/2147483647'",
+                    index: Some(H + 2147483647),
+                    xpub: "xpub6ASAVgeehLbnwdqV6UKMHVzgqAG8Gr6riv3Fxxpj8ksbH9ebxaEyBLZ85ySDhKiLDBrQSARLq1uNRts8RuJiHjaDMBU4Zn9h8LZNnBC5y4a",
+                    xprv: "xprv9wSp6B7kry3Vj9m1zSnLvN3xH8RdsPP1Mh7fAaR7aRLcQMKTR2vidYEeEg2mUCTAwCd6vnxVrcjfy2kRgVsFawNzmjuHc2YmYRmagcEPdU9",
+                },
+                Chain {
+                    path: "m/0/2147483647'/1",
+                    index: Some(1),
+                    xpub: "xpub6DF8uhdarytz3FWdA8TvFSvvAh8dP3283MY7p2V4SeE2wyWmG5mg5EwVvmdMVCQcoNJxGoWaU9DCWh89LojfZ537wTfunKau47EL2dhHKon",
+                    xprv: "xprv9zFnWC6h2cLgpmSA46vutJzBcfJ8yaJGg8cX1e5StJh45BBciYTRXSd25UEPVuesF9yog62tGAQtHjXajPPdbRCHuWS6T8XA2ECKADdw4Ef",
+                },
+                Chain {
+                    path: "m/0/2147483647'/1/2147483646'",
+                    index: Some(H + 2147483646),
+                    xpub: "xpub6ERApfZwUNrhLCkDtcHTcxd75RbzS1ed54G1LkBUHQVHQKqhMkhgbmJbZRkrgZw4koxb5JaHWkY4ALHY2grBGRjaDMzQLcgJvLJuZZvRcEL",
+                    xprv: "xprvA1RpRA33e1JQ7ifknakTFpgNXPmW2YvmhqLQYMmrj4xJXXWYpDPS3xz7iAxn8L39njGVyuoseXzU6rcxFLJ8HFsTjSyQbLYnMpCqE2VbFWc",
+                },
+                Chain {
+                    path: "m/0/2147483647'/1/2147483646'/2",
+                    index: Some(2),
+                    xpub: "xpub6FnCn6nSzZAw5Tw7cgR9bi15UV96gLZhjDstkXXxvCLsUXBGXPdSnLFbdpq8p9HmGsApME5hQTZ3emM2rnY5agb9rXpVGyy3bdW6EEgAtqt",
+                    xprv: "xprvA2nrNbFZABcdryreWet9Ea4LvTJcGsqrMzxHx98MMrotbir7yrKCEXw7nadnHM8Dq38EGfSh6dqA9QWTyefMLEcBYJUuekgW4BYPJcr9E7j",
+                },
+            ],
+        )
+    }
+
+    fn vector3() -> (&'static str, Vec<Chain>) {
+        (
+            "4b381541583be4423346c643850da4b320e46a87ae3d2a4e6da11eba819cd4acba45d239319ac14f863b8d5ab5a0d0c64d2e8a1e7d1457df2e5a3c51c73235be",
+            vec![
+                Chain {
+                    path: "m",
+                    index: None,
+                    xpub: "xpub661MyMwAqRbcEZVB4dScxMAdx6d4nFc9nvyvH3v4gJL378CSRZiYmhRoP7mBy6gSPSCYk6SzXPTf3ND1cZAceL7SfJ1Z3GC8vBgp2epUt13",
+                    xprv: "xprv9s21ZrQH143K25QhxbucbDDuQ4naNntJRi4KUfWT7xo4EKsHt2QJDu7KXp1A3u7Bi1j8ph3EGsZ9Xvz9dGuVrtHHs7pXeTzjuxBrCmmhgC6",
+                },
+                Chain {
+                    path: "m/0'",
+                    index: Some(H),
+                    xpub: "xpub68NZiKmJWnxxS6aaHmn81bvJeTESw724CRDs6HbuccFQN9Ku14VQrADWgqbhhTHBaohPX4CjNLf9fq9MYo6oDaPPLPxSb7gwQN3ih19Zm4Y",
+                    xprv: "xprv9uPDJpEQgRQfDcW7BkF7eTya6RPxXeJCqCJGHuCJ4GiRVLzkTXBAJMu2qaMWPrS7AANYqdq6vcBcBUdJCVVFceUvJFjaPdGZ2y9WACViL4L",
+                },
+            ],
+        )
+    }
+
+    fn run_vector(seed_hex: &str, chains: &[Chain]) {
+        let seed = hex_decode(seed_hex).unwrap();
+        let mut current: Option<XKey> = None;
+        let mut walked: Vec<u32> = Vec::new();
+        for chain in chains {
+            // the expected strings must at least be well-formed (guards against typos in this file)
+            for s in [chain.xpub, chain.xprv] {
+                let raw = base58check_decode(s).unwrap_or_else(|| panic!("bad checksum: {}", s));
+                assert_eq!(raw.len(), 78, "{}", s);
+            }
+
+            let key = match (chain.index, &current) {
+                (None, _) => master(&seed).expect("valid master"),
+                (Some(i), Some(parent)) => {
+                    walked.push(i);
+                    let child = derive(parent, i).expect("valid child");
+                    assert_eq!(child.depth, parent.depth + 1);
+                    assert_eq!(child.index, i);
+                    assert_eq!(child.parent_fp, fingerprint(parent));
+                    assert_eq!(child.parent_fp, fingerprint(&neuter(parent)));
+                    // public derivation commutes with neutering for non-hardened steps ...
+                    if i < H {
+                        assert_eq!(
+                            derive(&neuter(parent), i),
+                            Some(neuter(&child)),
+                            "CKDpub mismatch at {}",
+                            chain.path
+                        );
+                    } else {
+                        // ... and is impossible for hardened ones
+                        assert_eq!(derive(&neuter(parent), i), None);
+                    }
+                    child
+                }
+                (Some(_), None) => unreachable!("vector must start with the master"),
+            };
+            assert_eq!(parse_path(chain.path), Some(walked.clone()), "{}", chain.path);
+            assert!(matches!(key.key, KeyMaterial::Private(_)));
+            assert_eq!(to_string(&key), chain.xprv, "xprv of {}", chain.path);
+            assert_eq!(to_string(&neuter(&key)), chain.xpub, "xpub of {}", chain.path);
+            assert_eq!(neuter(&neuter(&key)), neuter(&key));
+            current = Some(key);
+        }
+    }
+
+    #[test]
+    fn bip32_test_vector_1() {
+        let (seed, chains) = vector1();
+        assert_eq!(chains.len(), 6);
+        run_vector(seed, &chains);
+    }
+
+    #[test]
+    fn bip32_test_vector_2() {
+        let (seed, chains) = vector2();
+        assert_eq!(chains.len(), 6);
+        run_vector(seed, &chains);
+    }
+
+    #[test]
+    fn bip32_test_vector_3_leading_zeros() {
+        let (seed, chains) = vector3();
+        assert_eq!(chains.len(), 2);
+        run_vector(seed, &chains);
+        // the point of this vector: the master private key starts with a zero byte, which must be
+        // kept in ser256(k) both when serialising and in the hardened-child HMAC input
+        let m = master(&hex_decode(seed).unwrap()).unwrap();
+        let KeyMaterial::Private(d) = &m.key else { unreachable!() };
+        assert_eq!(secp::be32(d)[0], 0x00);
+        assert!(d.bits() <= 248);
+    }
+
+    #[test]
+    fn serialisation_layout() {
+        let (seed, _) = vector1();
+        let m = master(&hex_decode(seed).unwrap()).unwrap();
+        let child = derive(&m, H + 5).unwrap();
+        let raw = base58check_decode(&to_string(&child)).unwrap();
+        assert_eq!(raw.len(), 78);
+        assert_eq!(&raw[0..4], &[0x04, 0x88, 0xAD, 0xE4]);
+        assert_eq!(raw[4], 1);
+        assert_eq!(&raw[5..9], &fingerprint(&m));
+        assert_eq!(&raw[9..13], &[0x80, 0x00, 0x00, 0x05]);
+        assert_eq!(&raw[13..45], &child.chain_code);
+        assert_eq!(raw[45], 0x00);
+        let KeyMaterial::Private(d) = &child.key else { unreachable!() };
+        assert_eq!(&raw[46..78], &secp::be32(d));
+
+        let raw = base58check_decode(&to_string(&neuter(&child))).unwrap();
+        assert_eq!(&raw[0..4], &[0x04, 0x88, 0xB2, 0x1E]);
+        assert_eq!(&raw[4..45], &base58check_decode(&to_string(&child)).unwrap()[4..45]);
+        assert_eq!(&raw[45..78], &secp::encode_point(&secp::pubkey(d), true)[..]);
+
+        // master: depth 0, zero fingerprint, zero index
+        let raw = base58check_decode(&to_string(&m)).unwrap();
+        assert_eq!(&raw[4..13], &[0u8; 9]);
+        // fingerprint = hash160(compressed pubkey)[0..4]
+        let KeyMaterial::Private(dm) = &m.key else { unreachable!() };
+        let id = hash160(&secp::encode_point(&secp::pubkey(dm), true));
+        assert_eq!(fingerprint(&m), [id[0], id[1], id[2], id[3]]);
+        // BIP32 vector 1 master identifier is 3442193e...
+        assert_eq!(fingerprint(&m), [0x34, 0x42, 0x19, 0x3e]);
+    }
+
+    #[test]
+    fn master_accepts_any_seed_length() {
+        for len in [0usize, 1, 15, 16, 32, 64, 65, 200] {
+            let seed: Vec<u8> = (0..len).map(|i| i as u8).collect();
+            let m = master(&seed).expect("valid with overwhelming probability");
+            assert_eq!(m.depth, 0);
+            assert_eq!(m.index, 0);
+            assert_eq!(m.parent_fp, [0u8; 4]);
+            let KeyMaterial::Private(d) = &m.key else { unreachable!() };
+            assert!(!d.is_zero() && d < &secp::n());
+        }
+        assert_ne!(master(&[]), master(&[0]));
+    }
+
+    #[test]
+    fn derive_edge_cases() {
+        let (seed, _) = vector2();
+        let m = master(&hex_decode(seed).unwrap()).unwrap();
+        // depth limit
+        let mut deep = m.clone();
+        deep.depth = 254;
+        let child = derive(&deep, 0).expect("depth 254 -> 255 is fine");
+        assert_eq!(child.depth, 255);
+        assert_eq!(derive(&child, 0), None);
+        assert_eq!(derive(&child, H), None);
+        assert_eq!(derive(&neuter(&child), 0), None);
+        // hardened from public
+        assert_eq!(derive(&neuter(&m), H), None);
+        assert_eq!(derive(&neuter(&m), u32::MAX), None);
+        assert!(derive(&neuter(&m), H - 1).is_some());
+        // hardened and normal children with the same number differ
+        assert_ne!(derive(&m, 7).unwrap().key, derive(&m, H + 7).unwrap().key);
+        // extreme indices
+        for i in [0u32, 1, H - 1, H, H + 1, u32::MAX] {
+            let c = derive(&m, i).unwrap();
+            assert_eq!(c.index, i);
+            if i < H {
+                assert_eq!(derive(&neuter(&m), i), Some(neuter(&c)));
+            }
+        }
+        // multi-level public derivation equals neutered private derivation
+        let mut prv = m.clone();
+        let mut pubk = neuter(&m);
+        for i in [3u32, 0, 2147483647, 42] {
+            prv = derive(&prv, i).unwrap();
+            pubk = derive(&pubk, i).unwrap();
+            assert_eq!(neuter(&prv), pubk);
+            assert_eq!(fingerprint(&prv), fingerprint(&pubk));
+        }
+        assert_eq!(pubk.depth, 4);
+    }
+
+    #[test]
+    fn parse_path_forms() {
+        assert_eq!(parse_path("m"), Some(vec![]));
+        assert_eq!(parse_path("M"), Some(vec![]));
+        assert_eq!(parse_path("m/"), Some(vec![]));
+        assert_eq!(parse_path("m/0"), Some(vec![0]));
+        assert_eq!(parse_path("m/0'/1/2h/3H"), Some(vec![H, 1, H + 2, H + 3]));
+        assert_eq!(parse_path("M/0'/1/2h/3H"), Some(vec![H, 1, H + 2, H + 3]));
+        assert_eq!(parse_path("m/0'/1/"), Some(vec![H, 1])); // trailing slash
+        assert_eq!(parse_path("m//0'//1"), Some(vec![H, 1])); // empty components ignored
+        assert_eq!(parse_path("m/44'/236'/0'/0/15"), Some(vec![H + 44, H + 236, H, 0, 15]));
+        assert_eq!(parse_path("m/2147483647"), Some(vec![H - 1]));
+        assert_eq!(parse_path("m/2147483647'"), Some(vec![u32::MAX]));
+        assert_eq!(parse_path("m/2147483647h"), Some(vec![u32::MAX]));
+        assert_eq!(parse_path("m/2147483647H"), Some(vec![u32::MAX]));
+        assert_eq!(parse_path("m/007"), Some(vec![7]));
+
+        for bad in [
+            "",
+            "/",
+            "0/1",
+            "/0/1",
+            "m/x",
+            "x/0",
+            "mm/0",
+            "m0",
+            " m/0",
+            "m /0",
+            "m/ 0",
+            "m/0 ",
+            "m/2147483648",
+            "m/2147483648'",
+            "m/4294967295",
+            "m/4294967296",
+            "m/99999999999999999999999999",
+            "m/-1",
+            "m/+1",
+            "m/1.0",
+            "m/0x10",
+            "m/'",
+            "m/h",
+            "m/H",
+            "m/0''",
+            "m/0'h",
+            "m/0hh",
+            "m/'0",
+            "m/h0",
+            "m/0'1",
+            "m/1e3",
+            "m/٣", // non-ASCII digit
+            "m\\0",
+            "n/0",
+        ] {
+            assert_eq!(parse_path(bad), None, "{:?}", bad);
+        }
+    }
+}
